@@ -36,6 +36,36 @@ EXEMPT = {
 CHNAME = {'"': "dquote", "\\": "backslash", "\n": "lf", "\r": "cr", "`": "backtick", "{": "lbrace"}
 
 
+def fmt_specs(bs):
+    """[{width, zero, fill}] for the placeholders of a `format_args!` template as rustc 1.97 encodes it (see facts.fmt_pieces): a text
+    piece is <len><bytes>; 0xC0 is a placeholder without options; 0xC3 one with options — a little-endian u32 of flags as in
+    core::fmt (fill char in the low 21 bits, bit 24 sign-aware zero pad, bit 27 width present, bit 28 precision present), followed by
+    a u16 width and/or u16 precision when present.  None when another encoding is met."""
+    out, i, n = [], 0, len(bs)
+    while i < n and bs[i] != 0:
+        b = bs[i]
+        if b < 0x80:
+            i += 1 + b
+        elif b == 0xC0:
+            out.append({"width": None, "zero": False, "fill": " "})
+            i += 1
+        elif b == 0xC3 and i + 4 < n:
+            flags = bs[i + 1] | (bs[i + 2] << 8) | (bs[i + 3] << 16) | (bs[i + 4] << 24)
+            i += 5
+            width = None
+            if flags & (1 << 27):
+                if i + 1 >= n:
+                    return None
+                width = bs[i] | (bs[i + 1] << 8)
+                i += 2
+            if flags & (1 << 28):
+                i += 2
+            out.append({"width": width, "zero": bool(flags & (1 << 24)), "fill": chr(flags & 0x1FFFFF)})
+        else:
+            return None
+    return out
+
+
 def printer_scope(P):
     impls = [f for f in P.trait_impls(TRAIT, "print_graphql") if (f.self_adt or "").startswith(A) or
              (f.self_ty or "").startswith(A)]
@@ -104,7 +134,20 @@ def r16a(P, R):
             elif brace:
                 R.holds("R16-a", "graphql-string:control-escape", "control characters -> \\u{hex}")
             else:
-                R.undecided("R16-a", "graphql-string:control-escape", "fixed-width \\uXXXX form: width not decoded", loc=ps.loc())
+                # fixed-width form: GraphQL's `\uXXXX` is exactly four hex digits — width 4, padded with zeros.  The width / fill / zero
+                # flag of the placeholder are read from the format template rustc keeps for `format_args!`.
+                specs = [sp for n in subnodes(arm["body"]) if n.get("k") == "Lit" and n.get("lk") == "bytes" and "format_args" in (n.get("x") or "")
+                         for sp in (fmt_specs(n.get("v") or []) or [None])]
+                if len(specs) != 1 or specs[0] is None:
+                    R.undecided("R16-a", "graphql-string:control-escape", "fixed-width \\uXXXX form: width not decoded", loc=ps.loc())
+                else:
+                    sp = specs[0]
+                    zero = sp["zero"] or sp["fill"] == "0"
+                    R.check("R16-a", "graphql-string:control-escape", sp["width"] == 4 and zero, "control characters -> \\uXXXX (four zero-padded hex digits)",
+                            "the \\u escape of a control character is formatted with width %s and %s: GraphQL reads exactly four hex digits after `\\u`, "
+                            "so U+000C printed as `\\u%s` is not an escape sequence and the literal does not re-parse"
+                            % (sp["width"], "zero padding" if zero else "padding with %r" % sp["fill"],
+                               ("c".rjust(sp["width"] or 1, "0" if zero else sp["fill"]))), loc=ps.loc())
     # block string: the `\"""` escape literal is pushed
     scope_paths, _ = printer_scope(P)
     block_lits = [l for p_ in scope_paths for l in str_lits_in(P.fns[p_].body)]
@@ -218,6 +261,32 @@ def r16a(P, R):
     R.check("R16-a", "js-template:buffer-owners", set(writers) <= allowed,
             "only new/write/drop touch the output buffer", "other functions write the JsStringWriter buffer unescaped: %s"
             % sorted(set(writers) - allowed))
+    # escaping routed past the escaper: where the escaping is a per-character dispatch, text of the chunk reaches the buffer only
+    # from inside that dispatch — a branch that appends the line itself (an `escape: false` mode, a "names need no escaping"
+    # shortcut) writes `\`, backtick and `${` raw into the template literal
+    if ms:
+        raw = []
+        for f in sorted({jw.path} | set(writers)):
+            f = P.fns[f]
+            texts = [p_["local"] for p_ in f.params if p_.get("k") == "Binding" and peel(str(p_.get("t", ""))) == "str"]
+            if not texts:
+                continue
+            pvf = Prov(f)
+            tnames = {pvf.params[l_] for l_ in texts}
+            own_ms = matches_on_type(f, "char")
+            for idx, (x, _) in enumerate(f.nodes()):
+                if not (x.get("k") == "MethodCall" and x.get("method") in ("push_str", "push", "extend", "write_str", "insert_str") and x["args"]):
+                    continue
+                if "String" not in norm(str(x["recv"].get("t", ""))):
+                    continue
+                if not any(("param", t_) in pvf.atoms(x["args"][0]) for t_ in tnames):
+                    continue
+                if any(c_[0] == "arm" and any(c_[1] is m_ for m_ in own_ms) for c_ in enclosing_contexts(f, idx)):
+                    continue
+                raw.append(short(f.path))
+        R.check("R16-a", "js-template:raw-text", not raw, "text of a chunk reaches the buffer only through the character dispatch that escapes it",
+                "%s appends (part of) the chunk to the template-literal buffer outside the character dispatch that escapes it: on that path "
+                "backslashes, backticks and `${` of the text are written raw" % ", ".join(sorted(set(raw))), loc=jw.loc())
     new = P.fn("js_string_writer::JsStringWriter::new")
     drop = P.fn("<sourcemap_writer::js_string_writer::JsStringWriter as core::ops::drop::Drop>::drop")
     R.check("R16-d", "template-open", any(s.startswith("`") for g in scope_fns(P, new) for s in str_lits_in(g.body)),
